@@ -63,7 +63,7 @@ def rule_agg(ctx):
     vals = [c for c in oc.calls if mir.method_name(c.name) == 'values']
     ctx.check('agg', 'over-all-unspents', len(vals) == 1 and canon(oc.op_expr(vals[0].args[0])) == 'self.unspents', oc, 'for unspent in self.unspents.values()')
     fs = mir.fmt_sites(oc)
-    head = [f for f in fs if f.literal_skeleton == 'address;balance\n' and not f.args]
+    head = util.header_writes(prog, oc, 'address;balance\n')
     rows = [f for f in fs if len(f.args) == 2 and f.literal_skeleton == '{};{}\n']
     ctx.check('agg', 'header', len(head) == 1, oc, 'header address;balance')
     if rows:
@@ -72,10 +72,19 @@ def rule_agg(ctx):
         ctx.check('agg', 'row=(address,balance)', a == ['each(new()).0', 'each(new()).1'] and all(x[1] == 'Display' and x[2]['default'] for x in f.args), f.cs, 'row args %s' % a)
         ctx.check('agg', 'one-row-per-address', oc.loop_depth(f.cs.bb) == 1, f.cs, 'row inside the loop over the balances map')
         # the map iterated is the one filled (same HashMap::new site)
-        it = [c for c in oc.calls if mir.method_name(c.name) == 'iter' and 'HashMap' in c.name]
+        it = [c for c in oc.calls if (mir.method_name(c.name) == 'iter' and 'HashMap' in c.name) or
+              (mir.method_name(c.name) == 'into_iter' and c.gargs and re.match(r'^&std::collections::HashMap<', c.gargs[0]))]
         filled = peel(oc.op_expr(ent[0].args[0])) if ent else None
         iterd = peel(oc.op_expr(it[0].args[0])) if it else None
         ctx.check('agg', 'iterates-the-filled-map', filled is not None and filled == iterd, f.cs, 'rows come from the map that was filled')
+        # exactly one row per address that owns an unspent output: nothing removes entries from the grouped map
+        # and no data condition guards the row
+        mut = [c for c in oc.calls if c.args and c.args[0].get('k') in ('move', 'copy') and c.args[0]['place'].get('ty', '').startswith('&mut') and
+               filled is not None and 'HashMap' in c.name and peel(oc.op_expr(c.args[0])) == filled and mir.method_name(c.name) not in ('entry', 'reserve', 'get_mut', 'iter_mut', 'values_mut')]
+        ctx.check('agg', 'no-address-dropped', not mut, mut[0] if mut else oc, 'the grouped map is only filled, never pruned',
+                  bad_detail='%s on the grouped map between aggregation and dump: an address that owns unspent outputs can lose its row' % [mir.method_name(c.name) for c in mut])
+        g = [x for x in util.guards_at(oc, f.cs.bb) if 'next(' not in x and not util.is_ok_guard(x) and 'Level' not in x]
+        ctx.check('agg', 'row-unconditional', not g, f.cs, 'every entry of the grouped map is written', bad_detail='row written only under %s' % g)
     else:
         ctx.violation('agg', 'row-template-missing', oc, 'no `{};{}\\n` row template')
     wr = [c for c in oc.calls if mir.method_name(c.name) == 'write_all']
@@ -92,4 +101,4 @@ def run(ctx):
     ctx.guard('sibling', rule_sibling)
     ctx.guard('agg', rule_agg)
     ctx.floor('sibling', 10)
-    ctx.floor('agg', 11)
+    ctx.floor('agg', 13)
